@@ -98,7 +98,7 @@ def _tsm(rows, obj):
     return C03._tsm(rows, C03._itemsize("end")[0 if obj else 1])
 
 
-def run_copy(L, obj, rechunk, target, compressor, base):
+def run_copy(L, obj, rechunk, target, compressor, base, in_except=False):
     import strax
 
     a, b = os.path.join(base, "a"), os.path.join(base, "b")
@@ -112,7 +112,15 @@ def run_copy(L, obj, rechunk, target, compressor, base):
         kw["rechunk_to_mb"] = _tsm(target, obj)
     if compressor:
         kw["target_compressor"] = compressor
-    st.copy_to_frontend(RUN, "src", **kw)
+    if in_except:
+        # the usual idiom "try to load from the fast store, on DataNotAvailable copy it there": the copy runs while
+        # an (unrelated, handled) exception is the interpreter's current exception
+        try:
+            raise strax.DataNotAvailable("not in the fast store yet")
+        except strax.DataNotAvailable:
+            st.copy_to_frontend(RUN, "src", **kw)
+    else:
+        st.copy_to_frontend(RUN, "src", **kw)
     st_b = ctx.make_context(P, storage=[strax.DataDirectory(b, readonly=True)], forbid_creation_of=("src",))
     st_a = ctx.make_context(P, storage=[strax.DataDirectory(a, readonly=True)], forbid_creation_of=("src",))
     out = {}
@@ -121,12 +129,12 @@ def run_copy(L, obj, rechunk, target, compressor, base):
     return out
 
 
-def sym_copy(layout, rechunk=False, target=1, compressor=None):
+def sym_copy(layout, rechunk=False, target=1, compressor=None, in_except=False):
     S = fresh_int("S", 0, H.T_MAX); E = fresh_int("E", 0, H.T_MAX)
     L = ctx.sym_layout("src_", layout, S, E=E)
     base = tempfile.mkdtemp(prefix="verif_c16_")
     try:
-        out = run_copy(L, True, rechunk, target, compressor, base)
+        out = run_copy(L, True, rechunk, target, compressor, base, in_except)
         return _check_copy(out, L, S, E, rechunk, compressor)
     finally:
         shutil.rmtree(base, ignore_errors=True)
@@ -153,7 +161,12 @@ def nat_copy(params, model):
     try:
         with warnings.catch_warnings():
             warnings.simplefilter("ignore")
-            out = run_copy(L, False, params.get("rechunk", False), params.get("target", 1), params.get("compressor"), base)
+            try:
+                out = run_copy(L, False, params.get("rechunk", False), params.get("target", 1), params.get("compressor"),
+                               base, params.get("in_except", False))
+            except Exception as e:  # noqa
+                return {"ok": False, "detail": f"copy / reading the copy raised {type(e).__name__}: {str(e)[:200]}",
+                        "label": f"copy:raised {type(e).__name__}"}
         label = core.concrete_run(lambda: _check_copy(out, L, S, E, params.get("rechunk", False), params.get("compressor")), model)
         return {"ok": label is None, "detail": label or "copy preserves the data", "label": label}
     finally:
@@ -457,7 +470,8 @@ MUTANTS = [
 OBLIGATIONS = [
     Ob("copy", sym_copy, lambda tier: [dict(layout=l) for l in _lays(tier)] +
        [dict(layout=l, rechunk=True, target=t) for l in _lays(tier) if sum(l) >= 2 for t in (1, 2)] +
-       [dict(layout=[2, 1], compressor="zstd"), dict(layout=[1, 1, 1], rechunk=True, target=2, compressor="lz4")],
+       [dict(layout=[2, 1], compressor="zstd"), dict(layout=[1, 1, 1], rechunk=True, target=2, compressor="lz4"),
+        dict(layout=[1, 1], in_except=True), dict(layout=[2, 1], rechunk=True, target=1, in_except=True)],
        nat_copy, setup=_setup, witnesses=1),
     # get_splits only cuts a stored chunk of >= source_rows + 2 rows: the [3] / [1, 3] / [4] layouts are the ones
     # where rechunk-on-load really splits
